@@ -16,7 +16,7 @@ OBLIGATIONS = [
     (P + "gen_unique", "on one server two entries that ever (after any two prefixes of the history) carried the same generation are the same entry; histories of < 2^64 operations"),
     (P + "l1_inv", "every L1 entry (k,v,deadline,g) was after some prefix of the history the responsible server's entry for k with generation g"),
     (P + "coherent_fetch", "a fetch on any node (with or without L1, any limits, any number of clients/servers) returning (v,deadline,g) implies: a direct fetch on the responsible server at that moment returns the same v, deadline, g; no WFwire hypothesis"),
-    (P + "coherent_fetch_ideal_partial", "histories whose stores are WFwire: every hit satisfies Spec.answerOk against the ideal shared cache = value and deadline of the latest store of the key by ANY node, not invalidated since by ANY node's rise/clear, not expired"),
+    (P + "coherent_fetch_ideal_partial", "histories whose stores are WFwire: every hit satisfies Spec.answerOk against the ideal shared cache = value and deadline of the latest store of the key by ANY node, not invalidated since by ANY node's rise/clear, not expired; with NUL-free keys also the trigger clause (a fetch asking for triggers gets a superset of the entry's trigger set)"),
     (P + "trigger_nul_counterexample", "finding tcp-trigger-nul: trigger a\\0b is split into a and b; after rise(a\\0b) by another node both nodes are still served the value the ideal cache no longer holds"),
     (P + "trigger_empty_counterexample", "finding tcp-trigger-empty: a store with an empty trigger name is dropped by the server; the previous value stays and is served to every node"),
     (P + "key_nul_counterexample", "finding tcp-key-nul: for the key k\\0x a fetch asking for the trigger set receives {k,x}; the predicate's trigger clause is false, its value clause true"),
@@ -561,22 +561,22 @@ def main():
     # ---- cluster histories (judged)
     cfgs = ["cfg 0 0,0", "cfg 0 0,n", "cfg 0,0 0,0", "cfg 1 1,0"]
     if thorough:
-        hs = exhaustive_histories(3, cfgs) + exhaustive_histories(4, cfgs[:2], stride=3, offset=rng.randrange(3))
+        hs = exhaustive_histories(3, cfgs) + exhaustive_histories(4, cfgs)
     else:
         hs = exhaustive_histories(3, cfgs, stride=5, offset=rng.randrange(5)) + exhaustive_histories(4, cfgs[:1], stride=97, offset=rng.randrange(97))
     run_stream("exhaustive", hs, True)
-    hs = [gen_history(rng, rng.randrange(30, 200), big=(i % 5 == 0)) for i in range(900 if thorough else 70)]
+    hs = [gen_history(rng, rng.randrange(30, 200), big=(i % 5 == 0)) for i in range(4000 if thorough else 90)]
     run_stream("random", hs, True)
     # ---- the excluded points (NUL / empty names): model must still follow the code; not judged
-    hs = [gen_history(rng, rng.randrange(20, 120), hostile=True) for i in range(300 if thorough else 30)]
+    hs = [gen_history(rng, rng.randrange(20, 120), hostile=True) for i in range(1200 if thorough else 30)]
     run_stream("hostile", hs, False)
 
     # ---- wire: raw frames to the real server; real client against a scripted peer
     if L:
-        hs = [gen_raw_history(rng, L, rng.randrange(20, 80)) for i in range(300 if thorough else 40)]
+        hs = [gen_raw_history(rng, L, rng.randrange(20, 80)) for i in range(1200 if thorough else 40)]
         lines, r = run_stream("raw", hs, False)
         harvested = sorted({o for l, o in zip(lines, r["out_i"]) if l.startswith("raw") and re.fullmatch(r"[0-9a-f]+", o or "")})
-        cw = gen_cw_lines(rng, L, harvested, 6000 if thorough else 800)
+        cw = gen_cw_lines(rng, L, harvested, 25000 if thorough else 800)
         run_stream("cw", [cw], False)
     else:
         c.broke("layout", "Gen.layoutStr not found")
